@@ -74,3 +74,48 @@ Theorem C10_tval_monotone_binary64 : forall A I x y : f64,
   (b2r (tval A I x) <= b2r (tval A I y))%R.
 Proof. exact tval_monotone. Qed.
 Print Assumptions C10_tval_monotone_binary64.
+
+(* ---- the grid map is total on binary64: for every box of sane magnitude (2^-900 <= width <= scale <= 2^900,
+   |anchor| <= 2^40 widths) and every position in the closed range [anchor - w, anchor + 2w] (the box, its mirror
+   images, periodic images), no intermediate result overflows, the value lies in [1, 31/16] - so iloc's debug
+   assertions hold - and its 52 mantissa bits, read as an integer, are (t - 1) * 2^52 in [0, 2^52) *)
+From MV Require Import Proofs.GridRange Proofs.GridRangeB64 Proofs.GridBits Proofs.GridTotal.
+From Flocq Require Import Core.
+
+Theorem C10_iloc_in_range_binary64 : forall a W S x : f64,
+  fin a = true -> fin W = true -> fin S = true -> fin x = true ->
+  (0 < b2r W)%R -> (b2r W <= b2r S)%R -> (bpow radix2 (-900) <= b2r W)%R -> (b2r S <= bpow radix2 900)%R ->
+  (Rabs (b2r a) <= 1099511627776 * b2r W)%R ->
+  (b2r a - b2r W <= b2r x <= b2r a + 2 * b2r W)%R ->
+  let ga := fsub a (fmul GRID_OFFSET W) in
+  let gi := fdiv f_one (fmul GRID_SCALE S) in
+  fin ga = true /\ fin gi = true /\ (0 <= b2r gi)%R /\ fin (tval ga gi x) = true /\
+  (1 <= b2r (tval ga gi x) <= 31 / 16)%R.
+Proof. exact iloc_in_range_b64. Qed.
+Print Assumptions C10_iloc_in_range_binary64.
+
+Theorem C10_grid_coordinate_total : forall a W S x : f64, sane_box a W S -> admissible a W x ->
+  let '(_, _, ga, gi) := cuboid_axis a W S in
+  t_in_range (tval ga gi x) = true /\ (0 <= iloc1 ga gi x < 2 ^ 52)%Z /\
+  IZR (iloc1 ga gi x) = mant52 (b2r (tval ga gi x)).
+Proof. exact grid_coordinate_total. Qed.
+Print Assumptions C10_grid_coordinate_total.
+
+Theorem C10_grid_coordinate_monotone : forall a W S x y : f64, sane_box a W S -> admissible a W x -> admissible a W y ->
+  (b2r x <= b2r y)%R ->
+  let '(_, _, ga, gi) := cuboid_axis a W S in (iloc1 ga gi x <= iloc1 ga gi y)%Z.
+Proof. exact grid_coordinate_monotone. Qed.
+Print Assumptions C10_grid_coordinate_monotone.
+
+Import ListNotations.
+(* non-vacuity: the unit box at the origin is sane, 0.5 is admissible, and its grid coordinate computes *)
+Example C10_unit_box_is_sane : sane_box f_zero f_one f_one /\ admissible f_zero f_one f_half.
+Proof. exact unit_box_sane. Qed.
+
+Example C10_grid_example :
+  let one := f_one in let zero := of_bits 0 in let half := of_bits 0x3FE0000000000000 in
+  (iloc_case false 3 [to_bits zero; to_bits zero; to_bits zero] [to_bits one; to_bits one; to_bits one]
+            [to_bits half; to_bits half; to_bits half]
+  = [(0x3FF8000000000000, 0x8000000000000, true); (0x3FF8000000000000, 0x8000000000000, true);
+     (0x3FF8000000000000, 0x8000000000000, true)])%Z.
+Proof. vm_compute. reflexivity. Qed.
